@@ -75,6 +75,7 @@ type NATSession struct {
 	DestIP     uint32
 	DestPort   uint16
 	_          uint16
+	_          uint32 // alignment padding before the __u64 members of struct nat_session
 	LastSeen   uint64
 	Created    uint64
 	PacketsOut uint64
